@@ -184,6 +184,7 @@ func makePlans(r *vk.Run, chains []chain) []plan {
 }
 
 func TestCheck(t *testing.T) {
+	vk.UseT(t)
 	r := vk.Start("C15", "model_checking", 170*time.Second, 22*time.Minute)
 	if r.Replay != "" {
 		replay(r)
